@@ -162,7 +162,14 @@ func init() {
 				}
 				return SliceV{O: m.newObj(&ArrayV{E: e}, "sqlcols"), Len: len(xs), Cap: len(xs)}
 			}
-			return TupleV{BVC(64, uint64(st.op)), BVC(64, uint64(st.conflict)), mkInts(st.cols), BoolC(st.whereKey)}
+			wk := 0
+			if st.whereKey {
+				wk = 1
+			}
+			if st.whereVal {
+				wk = 2
+			}
+			return TupleV{BVC(64, uint64(st.op)), BVC(64, uint64(st.conflict)), mkInts(st.cols), BVC(64, uint64(wk))}
 		},
 		rtPkg + ".Last": func(m *Machine, _ *Thread, _ *Frame, a []Value, _ ssa.Value) Value {
 			name := m.litArg(a[0], "name")
@@ -667,6 +674,7 @@ type sqlStmt struct {
 	conflict int   // insert: 0 plain (error on conflict), 1 OR REPLACE, 2 OR IGNORE
 	cols     []int // select: result columns; insert: target columns; update: SET columns (1 logID, 2 chkpt, 3 range)
 	whereKey bool  // ... WHERE logID = ?
+	whereVal bool  // ... WHERE logID = ? AND chkpt = ?
 }
 
 func sqlCol(name string) int {
@@ -703,12 +711,19 @@ func parseSQL(q string) sqlStmt {
 		t = t[len(words):]
 		return true
 	}
+	whereVal := false
 	where := func() (bool, bool) { // (hasWhere, ok)
 		if len(t) == 0 {
 			return false, true
 		}
-		if eat("where", "logid", "=", "?") && len(t) == 0 {
-			return true, true
+		if eat("where", "logid", "=", "?") {
+			if len(t) == 0 {
+				return true, true
+			}
+			if eat("and", "chkpt", "=", "?") && len(t) == 0 {
+				whereVal = true
+				return true, true
+			}
 		}
 		return false, false
 	}
@@ -796,14 +811,14 @@ func parseSQL(q string) sqlStmt {
 		if !ok || len(st.cols) == 0 {
 			return bad
 		}
-		st.whereKey = w
+		st.whereKey, st.whereVal = w, whereVal
 		return st
 	case eat("delete", "from", "chkpts"):
 		w, ok := where()
 		if !ok {
 			return bad
 		}
-		return sqlStmt{op: 5, whereKey: w}
+		return sqlStmt{op: 5, whereKey: w, whereVal: whereVal}
 	}
 	return bad
 }
